@@ -68,9 +68,15 @@ func (P *Program) registerTime() {
 		in := fr.in
 		d := tm(args[1])
 		if !d.IsConst() {
-			// duration in ns; only whole seconds are representable
-			in.C.DeclareFun("dur_secs", []smt.Sort{smt.BV(64)}, smt.BV(64))
-			panic(unsupported{"time.Time.Add with symbolic duration"})
+			// a symbolic duration is accepted when it is a whole number of seconds: x * 1e9
+			if d.Op == smt.OpBVMul {
+				for i := 0; i < 2; i++ {
+					if k := d.Args[i]; k.IsConst() && k.I64() == 1_000_000_000 {
+						return timeVal{in.C.BVAdd(sec(args[0]), d.Args[1-i])}
+					}
+				}
+			}
+			panic(unsupported{"time.Time.Add with a symbolic duration that is not seconds * 1e9"})
 		}
 		return timeVal{in.C.BVAdd(sec(args[0]), in.C.BVConstI(d.I64()/1_000_000_000, 64))}
 	})
@@ -85,6 +91,12 @@ func (P *Program) registerTime() {
 		in := fr.in
 		now := in.call(fr, 0, &native{fn: in.P.intrinsics["time.Now"]}, nil).(timeVal)
 		return in.C.BVMul(in.C.BVSub(now.sec, sec(args[0])), in.C.BVConstI(1_000_000_000, 64))
+	})
+	P.reg(VH+".Now", P.intrinsics["time.Now"])
+	P.reg("time.Until", func(fr *frame, args []value) value {
+		in := fr.in
+		now := in.call(fr, 0, &native{fn: in.P.intrinsics["time.Now"]}, nil).(timeVal)
+		return in.C.BVMul(in.C.BVSub(sec(args[0]), now.sec), in.C.BVConstI(1_000_000_000, 64))
 	})
 	P.reg("time.Sleep", func(fr *frame, args []value) value { return nil })
 	P.reg("(time.Duration).String", func(fr *frame, args []value) value { return fr.in.freshOpq() })
